@@ -1,8 +1,8 @@
 package main
 
 import (
-	"go/constant"
 	"fmt"
+	"go/constant"
 	"go/token"
 	"sort"
 	"strings"
@@ -185,8 +185,8 @@ type TSummary struct {
 	retFirstSnap []bool
 	raisesNC     KSet // fact at raise points reached before any consumption
 	// for single-result functions: the not-consumed returns split by nil-ness of the result
-	passWhenNil    KSet
-	passWhenNonNil KSet
+	passWhenNil     KSet
+	passWhenNonNil  KSet
 	nilWhenConsumed bool // some consuming return hands back the nil constant
 	mayRaise        bool // a raise point (of this function or of a callee, in the callee's context) is reachable
 }
@@ -199,29 +199,29 @@ func (s *TSummary) key() string {
 }
 
 type TKAI struct {
-	w      *World
+	w           *World
 	calleeRaise bool // set while a function is being summarised: some callee summary used so far may raise
-	sums   map[tkCtx]*TSummary
-	infos  map[tkCtx]*ctxInfo
-	order  []tkCtx
-	intra  map[*ssa.Function]*flowResult
-	dirty  bool
-	prim   *ssa.Function // (*Lexer).nextToken
-	tokCl  *ssa.Function // (*Token).Clone
-	lexCl  *ssa.Function // (*Lexer).Clone
-	isKwL  *ssa.Function
-	isId   *ssa.Function
-	holder map[*ssa.Alloc][]ssa.Value // local cells holding a token.Token copy -> stored struct values
-	touch   map[*ssa.Function]bool
-	pfacts  map[*ssa.Parameter]KSet
-	solving bool
-	readers map[tkCtx]map[tkCtx]bool // summary key -> contexts whose computation read it
-	stack   []tkCtx
-	queue   []tkCtx
-	queued  map[tkCtx]bool
-	nflows  int
-	efacts   map[*ssa.Function]KSet
-	ctxIntra map[*ssa.Function]*flowResult
+	sums        map[tkCtx]*TSummary
+	infos       map[tkCtx]*ctxInfo
+	order       []tkCtx
+	intra       map[*ssa.Function]*flowResult
+	dirty       bool
+	prim        *ssa.Function // (*Lexer).nextToken
+	tokCl       *ssa.Function // (*Token).Clone
+	lexCl       *ssa.Function // (*Lexer).Clone
+	isKwL       *ssa.Function
+	isId        *ssa.Function
+	holder      map[*ssa.Alloc][]ssa.Value // local cells holding a token.Token copy -> stored struct values
+	touch       map[*ssa.Function]bool
+	pfacts      map[*ssa.Parameter]KSet
+	solving     bool
+	readers     map[tkCtx]map[tkCtx]bool // summary key -> contexts whose computation read it
+	stack       []tkCtx
+	queue       []tkCtx
+	queued      map[tkCtx]bool
+	nflows      int
+	efacts      map[*ssa.Function]KSet
+	ctxIntra    map[*ssa.Function]*flowResult
 }
 
 func (w *World) TKAI() *TKAI {
@@ -477,10 +477,10 @@ func (tk *TKAI) refine(ci *ctxInfo, st *TState, cond ssa.Value, branch bool) *TS
 
 type flowResult struct {
 	consumedAt map[ssa.Instruction]KSet // first consumptions (not-consumed state consumes here) -> fact
-	ci  *ctxInfo
-	in  map[*ssa.BasicBlock][2]*TState
-	ret []*retState // states before Return instructions
-	rz  []*TState   // states at raise points (no-return calls, panics)
+	ci         *ctxInfo
+	in         map[*ssa.BasicBlock][2]*TState
+	ret        []*retState // states before Return instructions
+	rz         []*TState   // states at raise points (no-return calls, panics)
 }
 
 type retState struct {
